@@ -550,7 +550,7 @@ def replay(prop, r, keep=False):
             names.append(m.group(1))
         # the generated test calls the harness by bare name
         t = re.sub(r"kani::concrete_playback_run\(\s*concrete_vals\s*,\s*([A-Za-z0-9_]+)\s*\)",
-                   r"kani::concrete_playback_run(concrete_vals, super::verif_harness::\1)", t)
+                   r"crate::error::verif_harness::set_replay(); kani::concrete_playback_run(concrete_vals, super::verif_harness::\1)", t)
         body += t + "\n"
     failing = "; ".join(f"{c['function']}: {c['desc']} @ {c['file']}:{c['line']}" for c in r["failed"][:6])
     header = (f"// replay of a solver counterexample\n// property: {prop}\n// harness: {pretty}\n"
